@@ -1051,9 +1051,9 @@ pub struct GlobalData {
     pub final_configuration: Option<Vec<String>>,
     pub environment: HashMap<String, DataArc>,
 
-    /// Stores the guards of all pending delayed sends with a "sendid". Key: sendid,
+    /// Stores the guards of all pending delayed sends. Key: sendid (None for sends without id),
     /// value: (serial number of the send, guard) for each pending send with this id.
-    pub delayed_send: HashMap<String, Vec<(u32, Guard)>>,
+    pub delayed_send: HashMap<Option<String>, Vec<(u32, Guard)>>,
     pub io_processors: HashMap<String, Arc<Mutex<Box<dyn EventIOProcessor>>>>,
 
     pub data: DataStore,
@@ -1809,6 +1809,9 @@ impl Fsm {
                 }
             }
         }
+        // The session is over: cancel all delayed sends that are still pending.
+        // (Dropping the timer with the Fsm stops its thread only some time later.)
+        get_global!(datamodel).delayed_send.clear();
     }
 
     /// *W3C says*:
